@@ -300,7 +300,11 @@ def execute(plan: dict, ctx: dict) -> dict:
             keys_before = [tuple(t) for t in x_in.keys()]
             vals_before = {t: np.asarray(v) for t, v in x_in.items()}
             consts_arg = dict(consts)
-            out, aux = ml.autoregressive_map(recording_model, x_in, aux0, past, n, consts_arg)
+            if consts_arg:
+                out, aux = ml.autoregressive_map(recording_model, x_in, aux0, past, n, consts_arg)
+            else:  # no constant fields: rely on the default argument (which must not accumulate state between calls)
+                out, aux = ml.autoregressive_map(recording_model, x_in, aux0, past, n)
+                bump("default_constant_fields")
             outs = [out]
             # the caller's objects are inputs, not scratch space
             if [tuple(t) for t in x_in.keys()] != keys_before or any(not np.array_equal(np.asarray(x_in[t]), vals_before[t]) for t in vals_before) or consts_arg != consts:
